@@ -94,7 +94,23 @@ GenGrammar(s, cx0, depth) ==
   IN NumberActions(Prune([rules |-> rules]))
 
 (* ---------- the "switch" shape: a choice of >= 3 alternatives that all consume ---------- *)
+\* a nested choice of three alternatives with pairwise different first characters whose
+\* alternatives record tokens (captures, actions): itself rewritten into a switch
+Disj3(s, cx) ==
+  LET o == Pick(s, 50, Len(cx.alpha))
+      ch(i) == cx.alpha[1 + ((o + i) % Len(cx.alpha))]
+      item(i) == LET k == Pick(s, 51 + i, 4) IN
+                 CASE k = 0 -> Cap(Chr(ch(i))) [] k = 1 -> SeqE(<<Chr(ch(i)), Act(0)>>)
+                   [] k = 2 -> SeqE(<<Cap(Chr(ch(i))), Act(0)>>) [] k = 3 -> SeqE(<<Chr(ch(i)), Cap(Opt(Chr(ch(i + 1))))>>)
+  IN AltE(<<item(1), item(2), item(3)>>)
 FirstForm(s, cx) ==
+  IF Pick(s, 59, 6) = 0 THEN
+    (LET k == Pick(s, 58, 4) d == Disj3(s, cx) IN
+     CASE k = 0 -> d
+       [] k = 1 -> SeqE(<<And(d), Dot>>)
+       [] k = 2 -> SeqE(<<Not(SeqE(<<d, Chr(cx.alpha[1])>>)), Dot>>)
+       [] k = 3 -> SeqE(<<d, Opt(d)>>))
+  ELSE
   LET k == Pick(s, 60, 18)
       a == ConsAtom(H(s, 61), cx)
       b == ConsAtom(H(s, 62), cx)
@@ -257,7 +273,7 @@ Fam ==
     [] FAMILY = "switch" -> \* C02 C08: choices of >= 3 consuming alternatives (the shape -switch rewrites)
          [cx |-> [alpha |-> <<97, 98, 99, 100, 101, 102>>, acts |-> TRUE, caps |-> TRUE, preds |-> FALSE, sugar |-> TRUE, capnull |-> FALSE, maxrules |-> 3, self |-> 1, n |-> 1],
           depth |-> 0, optsets |-> Plain4, exhaust |-> 2, alphaIn |-> <<97, 98, 99, 100, 101, 102>>, extraAlpha |-> <<97, 98, 99, 100, 101, 102, 65, 122>>, nextra |-> 40,
-          collect |-> [toks |-> TRUE, exec |-> FALSE, ast |-> FALSE, msg |-> FALSE], entries |-> FALSE, memoOff |-> FALSE, act |-> "full"]
+          collect |-> [toks |-> TRUE, exec |-> TRUE, ast |-> FALSE, msg |-> FALSE], entries |-> FALSE, memoOff |-> FALSE, act |-> "full"]
     [] FAMILY = "memo" ->   \* C03 C04 C06: memo hits after the token buffer was overwritten by another branch
          [cx |-> [alpha |-> <<97, 98>>, acts |-> TRUE, caps |-> TRUE, preds |-> FALSE, sugar |-> FALSE, capnull |-> FALSE, maxrules |-> 3, self |-> 1, n |-> 1],
           depth |-> 0, optsets |-> <<"">>, exhaust |-> 4, alphaIn |-> <<97, 98>>, extraAlpha |-> <<97, 98, 99>>, nextra |-> 20,
